@@ -2,16 +2,15 @@
 // ASan/UBSan) on a subtable synthesised from the verifier's witness and compares, for all 0x110000 code points, the direct
 // lookup, the cached lookup and an independent reference implementation of the OpenType rules.
 //   witness: w_len, w_b[i] (subtable bytes, format 4 or 12 by its first word), w_c, w_key
-//   built-in scenarios (unit=c13_fill4_cover / c13_fill12_cover / c13_cached_ctor or "scenario=<name>"): see below
+//   built-in scenarios, selected by the unit name or by a line "scenario=<name>" in the witness file:
+//     first_segment_from_zero (c13_fill4_cover), fill12_from_zero (c13_fill12_cover), first_group_from_zero (c13_cached_ctor_bmp),
+//     last_code_point (c13_cached_ctor_last), bmp_in_both (c13_cached_ctor)
 #include "witness.h"
 #include <vector>
 #include <graphite2/Font.h>
 #define private public
 #define protected public
-#include "inc/Main.h"
-#include "inc/Face.h"
-#include "inc/CmapCache.h"
-#include "inc/TtfUtil.h"
+#include "CmapCache.cpp"       // the real translation unit: the cache_subtable template, bmp_/smp_subtable, both Cmap classes
 #undef private
 #undef protected
 using namespace graphite2;
@@ -142,14 +141,27 @@ int main(int argc, char **argv) {
         if (bad) REPLAY_FAIL("cached and direct cmap lookups disagree (%d code points) on a well-formed, sorted format 4 subtable whose first segment starts at U+0000", bad);
         REPLAY_OK("first segment from zero");
     }
-    if (unit == "c13_fill12_cover" || scen == "first_group_from_zero") {
+    if (unit == "c13_fill12_cover" || scen == "fill12_from_zero") {
+        // the real cache_subtable<format 12> on a subtable whose first group starts at U+0000: every code point of a group must be stored
+        bytes t12 = table12({0x0000, 0x10000}, {0x007F, 0x1FFFF}, {1, 0x200});
+        void *p = malloc(t12.size()); memcpy(p, t12.data(), t12.size());
+        uint16 **blocks = grzeroalloc<uint16 *>(0x1100);
+        bool ok = cache_subtable<TtfUtil::CmapSubtable12NextCodepoint, TtfUtil::CmapSubtable12Lookup>(blocks, p, 0x10FFFF);
+        for (unsigned c = 0; ok && c < 0x80; ++c) {
+            unsigned want = TtfUtil::CmapSubtable12Lookup(p, c, 0), got = blocks[0] ? blocks[0][c] : 0;
+            if (got != want) { if (bad++ < 6) printf("cache_subtable<12>: entry of U+%04X is %u, CmapSubtable12Lookup gives %u\n", c, got, want); }
+        }
+        if (bad) REPLAY_FAIL("cache_subtable<format 12> skips a code point of the first group (group U+0000..U+007F -> glyphs 1.., %d entries wrong)", bad);
+        REPLAY_OK("fill12 from zero");
+    }
+    if (unit == "c13_cached_ctor_bmp" || scen == "first_group_from_zero") {
         bytes t4 = table4({0x0020, 0xFFFF}, {0x007F, 0xFFFF}, {1, 1}, {0, 0}, {});
         bytes t12 = table12({0x0000, 0x10000}, {0x007F, 0x1FFFF}, {1, 0x200});
-        bad += sweep(&t4, &t12, "format 12, first group starts at U+0000, second U+10000..U+1FFFF");
-        if (bad) REPLAY_FAIL("cached and direct cmap lookups disagree (%d code points)", bad);
+        bad += sweep(&t4, &t12, "format 4 maps U+0020..7F, format 12 has a group U+0000..U+007F");
+        if (bad) REPLAY_FAIL("BMP code points that only the format 12 subtable maps: direct lookup (format 4) says unmapped, cached lookup returns the format 12 glyph (%d code points)", bad);
         REPLAY_OK("first group from zero");
     }
-    if (scen == "last_code_point") {
+    if (unit == "c13_cached_ctor_last" || scen == "last_code_point") {
         bytes t4 = table4({0x0020, 0xFFFF}, {0x007F, 0xFFFF}, {1, 2}, {0, 0}, {});           // U+FFFF -> glyph 1
         bytes t12 = table12({0x10000}, {0x10FFFF}, {0x200});                                  // U+10FFFF -> a glyph
         bad += sweep(&t4, &t12, "U+FFFF and U+10FFFF mapped");
